@@ -593,6 +593,10 @@ trait ArgumentReader {
 struct WhitespaceDelimitedArgumentReader<R: Read> {
     rd: R,
     pending: Vec<u8>,
+    /// For -I: an argument is a whole line.  Quotes and backslashes are
+    /// processed as usual and the blanks before the first character are
+    /// skipped, but a blank inside the line does not end the argument.
+    whole_lines: bool,
 }
 
 impl<R> WhitespaceDelimitedArgumentReader<R>
@@ -603,6 +607,14 @@ where
         Self {
             rd,
             pending: vec![],
+            whole_lines: false,
+        }
+    }
+
+    fn whole_lines(rd: R) -> Self {
+        Self {
+            whole_lines: true,
+            ..Self::new(rd)
         }
     }
 }
@@ -677,7 +689,7 @@ where
                     escape = Some(Escape::Quote(c));
                 }
                 (None, b'\\') => escape = Some(Escape::Slash),
-                (None, c) if is_separator(c) => {
+                (None, c) if is_separator(c) && !(self.whole_lines && in_argument && c != b'\n') => {
                     // '' and "" are arguments too.
                     if in_argument {
                         terminated_by_newline = c == b'\n' && !was_escaped_blank;
@@ -985,9 +997,9 @@ fn normalize_options<'a>(
         }
         (Some(delimiter), false) => Some(delimiter),
         (None, true) => Some(b'\0'),
-        // If `replace` and no delimiter specified, each line of stdin turns into a line of stdout,
-        // so the input should be split at newlines only.
-        (None, false) => replace.as_ref().map(|_| b'\n'),
+        // (`replace` and no delimiter specified: the default reader is told to
+        // take whole lines, see do_xargs)
+        (None, false) => None,
     };
 
     (max_args, max_lines, replace, delimiter)
@@ -1187,6 +1199,10 @@ fn do_xargs(args: &[&str]) -> Result<CommandResult, XargsError> {
 
     let args: Box<dyn ArgumentReader> = if let Some(delimiter) = delimiter {
         Box::new(ByteDelimitedArgumentReader::new(args_file, delimiter))
+    } else if replace.is_some() {
+        // Each line of stdin turns into one run: the input is split at
+        // newlines only.
+        Box::new(WhitespaceDelimitedArgumentReader::whole_lines(args_file))
     } else {
         Box::new(WhitespaceDelimitedArgumentReader::new(args_file))
     };
